@@ -34,7 +34,7 @@ theorem invA_init (c : Cfg) : InvA c init := by
 @[simp] theorem adj_oi {k} {v} {c} : adj (.oi k v c) = 0 := rfl
 @[simp] theorem adj_oiEv {k} {v} {c} : adj (.oiEv k v c) = (c : Int) := rfl
 @[simp] theorem adj_oiAdd {k} {v} {c} : adj (.oiAdd k v c) = (c : Int) := rfl
-@[simp] theorem adj_clr  : adj (.clr ) = 0 := rfl
+@[simp] theorem adj_clr {a p} : adj (.clr a p) = 0 := rfl
 @[simp] theorem adj_mLock {a} {b} {f} : adj (.mLock a b f) = 0 := rfl
 @[simp] theorem adj_mDrain {m} {l} {a} : adj (.mDrain m l a) = 0 := rfl
 @[simp] theorem adj_mAdmit {m} {ws} : adj (.mAdmit m ws) = 0 := rfl
@@ -172,10 +172,12 @@ macro_rules | `(tactic| inva_step $hi $h $f $c $t) => `(tactic|
    all_goals (simp at $h:ident; try subst $h:ident)
    all_goals inva_close $hi $c $t))
 
-theorem invA_clear {c : Cfg} {s s' : State} {t : Nat} (hi : InvA c s) (h : stepClear s t = some s') : InvA c s' := by
+theorem invA_clear {c : Cfg} {s s' : State} {t : Nat} (hi : InvA c s) (h : stepClear c s t = some s') : InvA c s' := by
   unfold stepClear at h
   split at h
-  · rename_i hpc
+  · rename_i acq pend hpc
+    split at h
+    case isFalse => simp at h
     simp at h; subst h
     have ht : t < c.nThreads := tlt hi (by simp_all)
     obtain ⟨h1, h2, h3, h4, h5⟩ := hi
@@ -230,7 +232,8 @@ theorem invA_capMap {c : Cfg} {s s' : State} {t : Nat} {sent : Bool} (hi : InvA 
 
 theorem invA_step {c : Cfg} {s s' : State} {t : Nat} {l : Label} (hi : InvA c s) (h : step c s t l = some s') :
     InvA c s' := by
-  cases l <;> simp only [step] at h
+  replace h := step_step0 h
+  cases l <;> simp only [step0] at h
   case call op a => inva_step hi h stepCall c t
   case advance d => simp at h; subst h; exact ⟨hi.fresh, hi.domNodup, hi.domCover, hi.acct, hi.clean⟩
   case read => inva_step hi h stepRead c t
@@ -249,6 +252,8 @@ theorem invA_step {c : Cfg} {s s' : State} {t : Nat} {l : Label} (hi : InvA c s)
   case oiEv => inva_step hi h stepOiEv c t
   case oiAdd => inva_step hi h stepOiAdd c t
   case clear => exact invA_clear hi h
+  case clrAcq i => inva_step hi h stepClrAcq c t
+  case clrGet i => inva_step hi h stepClrGet c t
   case mLock => inva_step hi h stepMLock c t
   case recv => inva_step hi h stepRecv c t
   case admit d => inva_step hi h stepAdmit c t
